@@ -68,6 +68,17 @@ def check(tier, seed):
                 res.violation('C05 oracle: ' + why, {'property': 'C05', 'input': desc, 'request': f'{sc["reqs"][0].op}:{sc["reqs"][0].label}',
                                                     'result': out[:300], 'reason': why}, f'C05|{sc["reqs"][0].op}|{sc["plan"][0][0]}|{why[:40]}')
             cases.append(C.Case('request-endless', S.model_cmd(sc, sk), proj(out), desc, domain=False, kind='endless/' + sc['plan'][0][0], proj=proj))
+        # fixed corpus: MON-VER answers of particular shapes (extension strings with / without values, up to 1000 bytes)
+        for name, sc in S.fixed_monver_scenarios():
+            out = S.run_scenario(sc)
+            desc = S.describe(sc)
+            desc['answer_shape'] = name
+            r = S.parse_result(out)
+            why = S.bounds_oracle(sc, sc['reqs'][0], r)
+            if why:
+                res.violation('C05 oracle: ' + why, {'property': 'C05', 'input': desc, 'request': 'poll:UbxMonVerPoll', 'result': out[:300], 'reason': why},
+                              f'C05|poll|fixed-monver|{name}|{why[:40]}')
+            cases.append(C.Case('request-fixed-monver', S.model_cmd(sc, sk), proj(out), desc, domain=False, kind='fixed-monver', proj=proj))
         # a receiver that never pauses (a byte every few ms for ever) on the real serial backend: requests still return within the bounds
         rngb = C.rng_for(seed, 'C05-babble')
         from .. import reflect as R2
